@@ -4,4 +4,6 @@ def main (args : List String) : IO UInt32 := do
   match args with
   | ["filter"] => Oracle.serve Oracle.Lock.handleFilter; return 0
   | ["order"] => Oracle.serve Oracle.Lock.handleOrder; return 0
+  | ["mutex"] => Oracle.serve Oracle.Lock.handleSched; return 0
+  | ["loss"] => Oracle.serve Oracle.Lock.handleSched; return 0
   | _ => IO.eprintln "usage: oracle_lock filter|order|mutex|loss"; return 2
